@@ -58,13 +58,13 @@ namespace internal
 		{
 			VersionKeeper::Check();
 			MOMO_CHECK(mNode != nullptr);
+			MOMO_CHECK(mItemIndex < mNode->GetCount());
 			if (mNode->IsLeaf())
 			{
 				++mItemIndex;
 			}
 			else
 			{
-				MOMO_CHECK(mItemIndex < mNode->GetCount());
 				mNode = mNode->GetChild(mItemIndex + 1);
 				while (!mNode->IsLeaf())
 					mNode = mNode->GetChild(0);
